@@ -1,6 +1,14 @@
 package blob
 
-import "perkeep.org/internal/vrt"
+// C20 harnesses: blobref text, encodings and ordering are mutually consistent.
+// All digests are symbolic at full width (20/28/32 bytes).
+
+import (
+	"bytes"
+	"strings"
+
+	"perkeep.org/internal/vrt"
+)
 
 func vSha224() Ref {
 	var d sha224Digest
@@ -20,6 +28,7 @@ func vSha256() Ref {
 	return Ref{d}
 }
 
+// vRef: a symbolic ref of one of the supported hashes.
 func vRef() Ref {
 	switch vrt.Choice(3) {
 	case 0:
@@ -30,16 +39,67 @@ func vRef() Ref {
 	return vSha256()
 }
 
-// K20b: Less agrees with byte-wise order of the text forms.
+// vOther: a ref of an unknown hash obtained the only way the API can make one,
+// by parsing name-hex text (name 1..3 chars, 1..4 hex digits; odd counts are
+// the legacy form).
+func vOther() (Ref, string) {
+	nl := 1 + vrt.Choice(3)
+	hl := 1 + vrt.Choice(4)
+	s := vrt.String(nl) + "-" + vrt.String(hl)
+	r, ok := Parse(s)
+	vrt.Assume(ok)
+	_, isOther := r.digest.(otherDigest)
+	vrt.Assume(isOther)
+	return r, s
+}
+
+// reference hex encoder, independent of the implementation's table
+func refHex(b []byte) string {
+	out := make([]byte, 0, 2*len(b))
+	for _, x := range b {
+		for _, n := range [2]byte{x >> 4, x & 15} {
+			if n < 10 {
+				out = append(out, '0'+n)
+			} else {
+				out = append(out, 'a'+n-10)
+			}
+		}
+	}
+	return string(out)
+}
+
+// K20b: Less agrees with byte-wise order of the text forms and is a strict total order.
 func VK20bLess() {
 	a, b := vRef(), vRef()
 	vrt.Assert(a.Less(b) == (a.String() < b.String()), "Less(a,b) == (a.String() < b.String())")
+	vrt.Assert(!(a.Less(b) && b.Less(a)), "Less is asymmetric")
+	vrt.Assert(a.Less(b) || b.Less(a) || a == b, "Less is total on distinct refs")
+	sa, sb := SizedRef{a, vrt.U32()}, SizedRef{b, vrt.U32()}
+	vrt.Assert(sa.Less(sb) == (a.String() < b.String()), "SizedRef.Less follows the text order")
 }
 
-// K20a: text round trip.
+func VK20bLessTrans() {
+	k := vrt.Choice(3)
+	mk := func() Ref {
+		switch k {
+		case 0:
+			return vSha1()
+		case 1:
+			return vSha224()
+		}
+		return vSha256()
+	}
+	a, b, c := mk(), mk(), mk()
+	vrt.Assume(a.Less(b) && b.Less(c))
+	vrt.Assert(a.Less(c), "Less is transitive")
+}
+
+// K20a: text round trip for supported refs.
 func VK20aParse() {
 	r := vRef()
 	s := r.String()
+	vrt.Assert(s == r.HashName()+"-"+refHex(r.digest.bytes()), "String() is name-hex(digest)")
+	vrt.Assert(r.Digest() == refHex(r.digest.bytes()), "Digest() is the lower-case hex digest")
 	p, ok := Parse(s)
 	vrt.Assert(ok, "Parse(r.String()) ok")
 	vrt.Assert(p == r, "Parse(r.String()) == r")
@@ -47,4 +107,170 @@ func VK20aParse() {
 	vrt.Assert(ok2 && k == r, "ParseKnown(r.String()) == r")
 	q, ok3 := ParseBytes([]byte(s))
 	vrt.Assert(ok3 && q == r, "ParseBytes(r.String()) == r")
+	vrt.Assert(ValidRefString(s), "ValidRefString(r.String())")
+	vrt.Assert(r.IsSupported(), "supported ref IsSupported")
+	m := r.StringMinusOne()
+	vrt.Assert(m < s, "StringMinusOne() < String()")
+}
+
+// K20a: JSON and binary encodings round trip for supported refs.
+func VK20aEncodings() {
+	r := vRef()
+	j, err := r.MarshalJSON()
+	vrt.Assert(err == nil, "MarshalJSON ok")
+	vrt.Assert(string(j) == "\""+r.String()+"\"", "MarshalJSON is the quoted text form")
+	var r2 Ref
+	err = r2.UnmarshalJSON(j)
+	vrt.Assert(err == nil && r2 == r, "UnmarshalJSON(MarshalJSON(r)) == r")
+	b, err := r.MarshalBinary()
+	vrt.Assert(err == nil, "MarshalBinary ok")
+	var r3 Ref
+	err = r3.UnmarshalBinary(b)
+	vrt.Assert(err == nil && r3 == r, "UnmarshalBinary(MarshalBinary(r)) == r")
+	var z Ref
+	zj, _ := z.MarshalJSON()
+	var z2 Ref
+	vrt.Assert(z2.UnmarshalJSON(zj) == nil && !z2.Valid(), "zero ref JSON round trip")
+}
+
+// K20a for refs of unknown hash names (incl. the legacy odd-hex form).
+func VK20aOther() {
+	r, s := vOther()
+	vrt.Assert(r.String() == s, "Parse(s).String() == s for unknown-hash refs")
+	p, ok := Parse(r.String())
+	vrt.Assert(ok && p == r, "Parse(r.String()) == r (unknown hash)")
+	q, ok := ParseBytes([]byte(s))
+	vrt.Assert(ok && q == r, "ParseBytes == Parse (unknown hash)")
+	_, okk := ParseKnown(s)
+	vrt.Assert(!okk, "ParseKnown rejects unknown hash names")
+	vrt.Assert(!r.IsSupported(), "unknown hash ref is not supported")
+	j, _ := r.MarshalJSON()
+	var r2 Ref
+	vrt.Assert(r2.UnmarshalJSON(j) == nil && r2 == r, "JSON round trip (unknown hash)")
+}
+
+func VK20aOtherBinary() {
+	r, _ := vOther()
+	b, err := r.MarshalBinary()
+	vrt.Assert(err == nil, "MarshalBinary ok (unknown hash)")
+	var r3 Ref
+	err = r3.UnmarshalBinary(b)
+	odd := r.digest.(otherDigest).odd
+	if odd {
+		vrt.Cover("odd")
+	}
+	vrt.Assert(err == nil && r3 == r, "UnmarshalBinary(MarshalBinary(r)) == r (unknown hash)")
+}
+
+// K20c: EqualString / HasPrefix agree with the text form for arbitrary strings.
+func VK20cEqualPrefix() {
+	r := vRef()
+	full := r.String()
+	n := vrt.Choice(len(full) + 2) // every length 0..len+1
+	s := vrt.String(n)
+	vrt.Assert(r.EqualString(s) == (s == full), "EqualString(s) == (s == r.String())")
+	want := len(s) >= len(r.HashName())+2 && strings.HasPrefix(full, s)
+	vrt.Assert(r.HasPrefix(s) == want, "HasPrefix(s) == (has name- and >=1 digit && prefix of text)")
+}
+
+func VK20cEqualPrefixOther() {
+	r, full := vOther()
+	n := vrt.Choice(len(full) + 2)
+	s := vrt.String(n)
+	vrt.Assert(r.EqualString(s) == (s == full), "EqualString(s) == (s == r.String()) (unknown hash)")
+	want := len(s) >= len(r.HashName())+2 && strings.HasPrefix(full, s)
+	vrt.Assert(r.HasPrefix(s) == want, "HasPrefix(s) agrees with text (unknown hash)")
+}
+
+func isLowerHex(s string) bool {
+	ok := true
+	for i := 0; i < len(s); i++ {
+		c := s[i]
+		if c < '0' {
+			ok = false
+		}
+		if c > '9' && c < 'a' {
+			ok = false
+		}
+		if c > 'f' {
+			ok = false
+		}
+	}
+	return ok
+}
+
+func isTestOnlyName(s string) bool {
+	return strings.HasPrefix(s, "perma-") || strings.HasPrefix(s, "fakeref-") || strings.HasPrefix(s, "testref-")
+}
+
+// K20d: only well-formed refs of a supported hash are accepted by ParseKnown.
+func VK20dRejectKnown() {
+	var name string
+	var size int
+	switch vrt.Choice(3) {
+	case 0:
+		name, size = "sha1", 20
+	case 1:
+		name, size = "sha224", 28
+	default:
+		name, size = "sha256", 32
+	}
+	// right length and +-1
+	hl := 2*size - 1 + vrt.Choice(3)
+	hex := vrt.String(hl)
+	s := name + "-" + hex
+	r, ok := ParseKnown(s)
+	wf := hl == 2*size && isLowerHex(hex)
+	vrt.Assert(ok == wf, "ParseKnown accepts name-hex iff hex is lower-case and of the exact length")
+	if ok {
+		vrt.Assert(r.String() == s, "accepted text is the ref's text form")
+	}
+	r2, ok2 := Parse(s)
+	vrt.Assert(ok2 == wf && r2 == r, "Parse agrees with ParseKnown on supported names")
+	r3, ok3 := ParseBytes([]byte(s))
+	vrt.Assert(ok3 == wf && r3 == r, "ParseBytes agrees with ParseKnown on supported names")
+}
+
+// K20d: arbitrary short strings over the full byte alphabet.
+func VK20dRejectShort() {
+	n := vrt.Choice(6 + 3*vrt.Tier()) // lengths 0..5 quick, 0..8 thorough
+	s := vrt.String(n)
+	_, ok := ParseKnown(s)
+	if isTestOnlyName(s) {
+		// known finding D21: production ParseKnown accepts the test-only hash names
+		vrt.Assert(!ok, "ParseKnown rejects refs of the test-only hash names perma/fakeref/testref")
+	} else {
+		vrt.Assert(!ok, "ParseKnown rejects every string shorter than a supported ref")
+	}
+	r, ok2 := Parse(s)
+	// reference: name-hex with valid name and 1..256 lower-case hex digits
+	i := strings.IndexByte(s, '-')
+	wf := false
+	if i > 0 {
+		nm, hx := s[:i], s[i+1:]
+		wf = validDigestName(digestName(nm)) && len(hx) >= 1 && isLowerHex(hx) &&
+			nm != "sha1" && nm != "sha224" && nm != "sha256"
+	}
+	vrt.Assert(ok2 == wf, "Parse accepts a short string iff it is validname-lowerhex")
+	if ok2 {
+		vrt.Assert(r.String() == s, "accepted text is the ref's text form (short)")
+	}
+	vrt.Assert(ValidRefString(s) == ok2, "ValidRefString == Parse ok")
+}
+
+// K20e: the ref computed for bytes is name + "-" + hex(H(bytes)), with H stubbed
+// to an arbitrary digest (the hash functions themselves are trusted std).
+func VK20eRefFrom() {
+	d := vrt.Bytes(28)
+	vrt.Stub("(*crypto/internal/fips140/sha256.Digest).Write", func(p []byte) (int, error) { return len(p), nil })
+	vrt.Stub("(*crypto/internal/fips140/sha256.Digest).Sum", func(in []byte) []byte { return append(in, d...) })
+	content := vrt.Bytes(3)
+	r := RefFromBytes(content)
+	vrt.Assert(r.String() == "sha224-"+refHex(d), "RefFromBytes = sha224-hex(H(bytes))")
+	r2 := RefFromString(string(content))
+	vrt.Assert(r2 == r, "RefFromString == RefFromBytes")
+	h := NewHash()
+	h.Write(content)
+	vrt.Assert(r.HashMatches(h), "HashMatches on the ref's own digest")
+	vrt.Assert(bytes.Equal(r.digest.bytes(), d), "digest bytes are H(bytes)")
 }
